@@ -33,6 +33,7 @@ def main():
     ap.add_argument('--name', default=None)
     ap.add_argument('--src', default=None, help='directory with patch.diff, demo.py, meta.json (default /tmp/seedwork/out/<id>)')
     ap.add_argument('--seed', default='1')
+    ap.add_argument('--orig-wt', default=None, help='worktree path the demo may mention (default /tmp/seedwork/<id>)')
     args = ap.parse_args()
 
     pid = args.id
@@ -50,7 +51,7 @@ def main():
     try:
         env = dict(os.environ, PYTHONPATH=f'{wt}/src')
         demo = f'{src}/demo.py'
-        demo_txt = open(demo).read().replace(f'/tmp/seedwork/{pid}', wt)
+        demo_txt = open(demo).read().replace(args.orig_wt or f'/tmp/seedwork/{pid}', wt)
         open(f'{wt}/_demo.py', 'w').write(demo_txt)
         r0 = sh(f'/venv/bin/python {wt}/_demo.py', env=env, cwd=wt)
         out['demo_without_change_rc'] = r0.returncode
